@@ -30,7 +30,7 @@ def plan(tier, seed):
     return ([{"kind": "control", "n": 600 if tier == "quick" else 3500} for _ in range(n)]
             + [{"kind": "comprehensions", "n": 700 if tier == "quick" else 4000} for _ in range(n // 2)]
             + [{"kind": "order", "n": 500 if tier == "quick" else 4000} for _ in range(2 if tier == "quick" else 8)]
-            + [{"kind": "returns", "legacy": True}, {"kind": "returns", "legacy": False}])
+            + [{"kind": "returns", "legacy": True}, {"kind": "returns", "legacy": False}, {"kind": "fresh"}])
 
 
 def multiset(av):
@@ -171,7 +171,70 @@ def run_returns(spec, ctx):
         run_exit_in_operand(ctx)
 
 
+# A comprehension builds a value of its own, as the explicit loop with a fresh accumulator does: what is done to the
+# result afterwards does not show in the source (nor in a second evaluation of the same comprehension), and the other
+# way round. (form name, comprehension over the variable xs, the explicit loop as an expression)
+FRESH_FORMS = [
+    ("list-identity", "[x for x in {W}xs]", "(fn() do def acc = []; for x in {W}xs do append(acc, x) end; acc end)()"),
+    ("list-filtered", "[x for x in {W}xs if x is not NULL]", "(fn() do def acc = []; for x in {W}xs do if x is not NULL then append(acc, x) end; acc end)()"),
+    ("list-wrapped", "[[x] for x in {W}xs]", "(fn() do def acc = []; for x in {W}xs do append(acc, [x]) end; acc end)()"),
+    ("set-identity", "<<x for x in {W}xs>>", "(fn() do def acc = <<>>; for x in {W}xs do append(acc, x) end; acc end)()"),
+    ("map-identity", "<<<x => x for x in {W}xs>>>", "(fn() do def acc = <<<>>>; for x in {W}xs do put(acc, x, x) end; acc end)()"),
+    ("list-parallel", "[x for x in {W}xs also for y in {W}xs]", "(fn() do def acc = []; for x in {W}xs do append(acc, x) end; acc end)()"),
+]
+# (maps and objects only with an explicit keys / values / entries: the defaults of comprehension and loop differ by design)
+FRESH_SOURCES = [("list", "[1, 2, 3]", [""]), ("list-of-lists", "[[1], [2], [2]]", [""]), ("empty-list", "[]", [""]), ("set", "<<3, 1, 2>>", [""]),
+                 ("empty-set", "<<>>", [""]), ("string", "'abc'", [""]), ("map", "<<<1 => 'a', 2 => 'b'>>>", ["keys ", "values ", "entries "]),
+                 ("object", "<*a = 1, b = 2*>", ["keys ", "values "]), ("list-long", "range(40)", [""])]
+FRESH_EDITS_RESULT = {"list": ["append(r, 99)", "insert_at(r, 0, 98)", "r[0] = 97", "delete_at(r, 0)", "r += 96", "remove(r, 2)"],
+                      "set": ["append(r, 99)", "remove(r, 2)", "r += 96"], "map": ["put(r, 99, 1)", "r[98] = 1", "remove(r, 2)"]}
+FRESH_EDITS_SOURCE = {"list": ["append(xs, 89)", "xs[0] = 87", "delete_at(xs, 0)"], "list-of-lists": ["append(xs, 89)", "xs[0] = 87", "append(xs[0], 5)"],
+                      "empty-list": ["append(xs, 89)"], "set": ["append(xs, 89)", "remove(xs, 2)"], "empty-set": ["append(xs, 89)"], "string": ["xs[0] = 'z'"],
+                      "map": ["put(xs, 89, 'z')", "remove(xs, 1)", "xs[1] = 'q'"], "object": ["xs->c = 3", "xs->a = 9"], "list-long": ["append(xs, 89)", "xs[39] = 0"]}
+
+
+def run_fresh(spec, ctx):
+    import ckl.functions
+    for legacy in (True, False):
+        it, out = core.new_interpreter(secure=True, legacy=legacy)
+        pre = "" if legacy else "require List unqualified; require Set unqualified; require Map unqualified; require Core unqualified; "
+
+        def ev(src):
+            o = core.observe(lambda: it.interpret(pre + src, "c04fresh", ckl.functions.Environment()), 2000000)
+            if o.kind == "value":
+                return ("value", core.safe_str(o.value, 600))
+            if o.kind == "rte":
+                return ("rte", core.safe_str(getattr(o.exc, "value", None), 100))
+            return (o.kind, core.safe_str(o.exc, 100))
+        for fname, comp, loop in FRESH_FORMS:
+            rkind = fname.split("-")[0]
+            for sname, stext, whats in FRESH_SOURCES:
+                for w in whats:
+                    for er in FRESH_EDITS_RESULT[rkind] + ["1"]:
+                        for es in FRESH_EDITS_SOURCE[sname] + ["1"]:
+                            tmpl = ("def xs = %s; def r = {FORM}; def before = string(xs); do %s catch all 'edit failed' end; def mid = string(xs); def r2 = {FORM}; "
+                                    "do %s catch all 'edit failed' end; [before == mid, xs, r, r2]") % (stext, er, es)
+                            a = ev(tmpl.replace("{FORM}", comp.replace("{W}", w)))
+                            b = ev(tmpl.replace("{FORM}", loop.replace("{W}", w)))
+                            ctx.count("fresh_programs")
+                            ctx.case(("fresh", legacy, fname, sname, w, er, es), nontrivial=True)
+                            if b[0] == "syntax" or a[0] == "syntax":
+                                ctx.count("harness_syntax_errors")
+                                ctx.note("fresh-result program does not parse: " + tmpl[:200] + " " + comp + " " + repr((a, b)))
+                                continue
+                            if a != b:
+                                ctx.violation("C04:comprehension-result-shared:%s:%s" % (fname, sname.split("-")[0]),
+                                              "%s -> %s %s, but with the explicit loop -> %s %s" % (tmpl.replace("{FORM}", comp.replace("{W}", w)), a[0], a[1], b[0], b[1]),
+                                              {"src": tmpl.replace("{FORM}", comp.replace("{W}", w))})
+                            elif a[0] == "value" and a[1].startswith("[FALSE"):
+                                ctx.violation("C04:comprehension-result-shared:source-changed:%s" % fname, "%s -> %s: an edit of the result changed the source" % (tmpl.replace("{FORM}", comp.replace("{W}", w)), a[1]),
+                                              {"src": tmpl})
+    ctx.sample({"fresh_forms": len(FRESH_FORMS), "fresh_sources": len(FRESH_SOURCES)})
+
+
 def run_shard(spec, ctx):
+    if spec["kind"] == "fresh":
+        return run_fresh(spec, ctx)
     if spec["kind"] == "returns":
         return run_returns(spec, ctx)
     R = differ.RealRunner(secure=True, legacy=True)
@@ -318,7 +381,7 @@ def finalize(merged, tier):
     reasons = []
     if c.get("harness_syntax_errors", 0):
         reasons.append("%d generated programs did not parse (harness defect)" % c["harness_syntax_errors"])
-    for k in ("differential_comparisons", "comprehension_loop_pairs", "log_events", "order_programs", "order_programs_after_edits", "return_programs"):
+    for k in ("differential_comparisons", "comprehension_loop_pairs", "log_events", "order_programs", "order_programs_after_edits", "return_programs", "fresh_programs"):
         if c.get(k, 0) == 0:
             reasons.append("monitor counter %s is zero" % k)
     disc = {m: c.get("discriminates_" + m, 0) for m in sorted(set(MODES + COMP_MODES))}
